@@ -84,8 +84,11 @@ impl BodyWriter {
                 let mut input_used = 0;
 
                 if input.is_empty() {
-                    self.finish(w);
-                    self.ended = true;
+                    // The end chunk is written once, and the body is only
+                    // finished when it fits the output.
+                    if !self.ended && self.finish(w) {
+                        self.ended = true;
+                    }
                 } else {
                     // The chunk size might be smaller than the entire input, in which case
                     // we continue to send chunks frome the same input.
